@@ -545,4 +545,215 @@ theorem renderOK_of_mem (Sy : Syms) {a : RTok} {args : List RTok} (hok : renderO
     · subst e; exact hok.1
     · exact ih hok.2 e
 
+/-! ### the recursion -/
+
+def isParen (c : Char) : Bool := c = ')' || c = '('
+
+/-- both renderings of a function pattern are stripped to head and argument words -/
+theorem strip_func (Sy : Syms) (h : RSet) (args : List RTok) (hok : renderOK Sy (.func h args) = true) :
+    stripChars isParen (removeChar '\n' (render (.func h args))) = renderSet h ++ renderArgsT args ∧
+    stripChars isParen (removeChar '\n' (renderT (.func h args))) = renderSet h ++ renderArgsT args := by
+  have sh := shape Sy _ hok
+  obtain ⟨hs, _, _, _⟩ := func_inner Sy h args hok
+  obtain ⟨k, hk⟩ := sh.close
+  have hnl : '\n' ∉ render (.func h args) := sh.nonl
+  have hnlT : '\n' ∉ renderT (.func h args) := by
+    intro hm; apply hnl; rw [hk]; exact List.mem_append_left _ hm
+  rw [removeChar_id _ _ hnl, removeChar_id _ _ hnlT]
+  -- the core: not empty, begins and ends with a character that is not a bracket
+  obtain ⟨c0, r0, hr0, hc0⟩ := renderSet_head hs
+  have hYne : renderSet h ++ renderArgsT args ≠ [] := by rw [hr0]; simp
+  have hhead : ∀ c, (renderSet h ++ renderArgsT args).head? = some c → isParen c = false := by
+    intro c hc
+    rw [hr0] at hc
+    simp only [List.cons_append, List.head?_cons, Option.some.injEq] at hc
+    subst hc
+    have := (renderSet_chars hs c0 (by rw [hr0]; exact List.mem_cons_self)).1
+    simp [isParen, this.1, this.2]
+  have hlast : ∀ c, (renderSet h ++ renderArgsT args).getLast? = some c → isParen c = false := by
+    intro c hc
+    obtain ⟨d, hd, hn⟩ := sh.lastT
+    simp only [renderT] at hd
+    cases hY : renderSet h ++ renderArgsT args with
+    | nil => exact absurd hY hYne
+    | cons y ys =>
+      rw [hY] at hc hd
+      rw [show ('(' :: y :: ys) = ['('] ++ y :: ys by rfl, getLast?_append_cons, hc] at hd
+      simp only [Option.some.injEq] at hd
+      subst hd
+      simp [isParen, hn.1, hn.2]
+  have hpost : ∀ n, ∀ c ∈ List.replicate n ')', isParen c = true := by
+    intro n c hc
+    rw [List.mem_replicate] at hc
+    rw [hc.2]; decide
+  constructor
+  · rw [hk]
+    simp only [renderT]
+    exact stripChars_mid isParen ['('] _ _ (by decide) (hpost k) hYne hhead hlast
+  · simp only [renderT]
+    have := stripChars_mid isParen ['('] (renderSet h ++ renderArgsT args) [] (by decide) (by simp) hYne hhead hlast
+    simpa using this
+
+theorem isParen_eq : (fun c => decide (c = ')') || decide (c = '(')) = isParen := rfl
+
+/-- the head word of a pattern -/
+theorem tokOf_head (Sy : Syms) (rec : Str → Option (Tok Sym)) (h : RSet) (hs : setOK h = true) :
+    tokOf Sy rec (renderSet h) = match h with
+      | .names ns => (resolveNames Sy ns.eraseDups).map .allow
+      | .neg ns => some (match resolveNeg Sy ns with
+        | none => .any
+        | some S => .allow S) := by
+  obtain ⟨c0, r0, hr0, hc0⟩ := renderSet_head hs
+  unfold tokOf
+  have : startsWith ['('] (renderSet h) = false := by rw [hr0, startsWith_single]; simpa using hc0.symm
+  simp only [this, Bool.false_eq_true, if_false]
+  cases h with
+  | names ns => exact interp_set_names Sy hs
+  | neg ns => exact interp_set_neg Sy hs
+
+theorem parseSpec_func (Sy : Syms) : ∀ (fuel : Nat) (t : RTok), renderOK Sy t = true → isFunc t = true →
+    fdepth t ≤ fuel → parseSpec Sy fuel (render t) = sem Sy t ∧ parseSpec Sy fuel (renderT t) = sem Sy t := by
+  intro fuel
+  induction fuel with
+  | zero =>
+    intro t _ hf hd
+    cases t with
+    | func h args => simp [fdepth] at hd
+    | _ => simp [isFunc] at hf
+  | succ fuel ih =>
+    intro t hok hf hd
+    cases t with
+    | func h args =>
+      obtain ⟨hs, hoks, _, _⟩ := func_inner Sy h args hok
+      obtain ⟨e1, e2⟩ := strip_func Sy h args hok
+      -- the loop on the stripped string
+      have key : parseWords Sy (parseSpec Sy fuel) ((renderSet h ++ renderArgsT args).length + 1)
+          (renderSet h ++ renderArgsT args) 0 =
+          (match tokOf Sy (parseSpec Sy fuel) (renderSet h), semArgs Sy args with
+            | some t, some ts => some (t :: ts)
+            | _, _ => none) := by
+        rw [parseWords_eq, List.drop_zero, parseRest]
+        obtain ⟨c0, r0, hr0, hc0⟩ := renderSet_head hs
+        have hsp : ' ' ∉ renderSet h := fun hm => (renderSet_chars hs _ hm).2.1 rfl
+        have hYne : renderSet h ++ renderArgsT args ≠ [] := by rw [hr0]; simp
+        simp only [hYne, if_false]
+        have hrec : ∀ a ∈ args, isFunc a = true →
+            parseSpec Sy fuel (render a) = sem Sy a ∧ parseSpec Sy fuel (renderT a) = sem Sy a := by
+          intro a ha hfa
+          apply ih a (renderOK_of_mem Sy hoks ha) hfa
+          have := fdepth_le_of_mem ha
+          simp only [fdepth] at hd
+          omega
+        by_cases hnil : args = []
+        · subst hnil
+          simp only [renderArgsT, List.append_nil, (pnw_word (renderSet h) [] c0 r0 hr0 hc0 hsp).2]
+          rw [List.drop_of_length_le (by omega)]
+          rw [show (renderSet h).length = (renderSet h).length - 1 + 1 by rw [hr0]; simp, parseRest_nil]
+          simp only [semArgs]
+          cases tokOf Sy (parseSpec Sy fuel) (renderSet h) <;> rfl
+        · rw [renderArgsT_eq args hnil, (pnw_word (renderSet h) (wordsT args) c0 r0 hr0 hc0 hsp).1]
+          simp only
+          rw [show (renderSet h).length + 1 = (renderSet h ++ [' ']).length by simp,
+            show renderSet h ++ ' ' :: wordsT args = (renderSet h ++ [' ']) ++ wordsT args by simp, List.drop_left]
+          rw [parseRest_args Sy _ args hnil hoks hrec _ (by
+            have := wordsT_length Sy args hoks
+            simp only [List.length_append, List.length_cons, List.length_nil]; omega)]
+          cases tokOf Sy (parseSpec Sy fuel) (renderSet h) <;> cases semArgs Sy args <;> rfl
+      -- assemble, and the meaning
+      have fin : (match (match tokOf Sy (parseSpec Sy fuel) (renderSet h), semArgs Sy args with
+            | some t, some ts => some (t :: ts)
+            | _, _ => none) with
+          | none => none
+          | some elements => assemble Sy.fixF2 elements) = sem Sy (.func h args) := by
+        rw [tokOf_head Sy _ h hs]
+        simp only [sem]
+        cases h with
+        | names ns =>
+          simp only
+          cases resolveNames Sy ns.eraseDups with
+          | none => rfl
+          | some H =>
+            cases semArgs Sy args with
+            | none => rfl
+            | some as => simp [assemble]
+        | neg ns =>
+          simp only [renderOK, Bool.and_eq_true] at hok
+          have hsome := hok.1.2
+          rcases hr : resolveNeg Sy ns with _ | S
+          · rw [hr] at hsome; simp at hsome
+          · simp only [hr]
+            cases semArgs Sy args with
+            | none => rfl
+            | some as => simp [assemble]
+      constructor
+      · rw [parseSpec]
+        simp only [isParen_eq, e1, key]
+        exact fin
+      · rw [parseSpec]
+        simp only [isParen_eq, e2, key]
+        exact fin
+    | _ => simp [isFunc] at hf
+
+/-! ### top level -/
+
+theorem parse_render_func (Sy : Syms) (t : RTok) (hok : renderOK Sy t = true) (hf : isFunc t = true) :
+    parse Sy (render t) = sem Sy t := by
+  unfold parse
+  exact (parseSpec_func Sy _ t hok hf (by have := (shape Sy t hok).depth; omega)).1
+
+/-- a rule that is a single word (`_`, a count, a sub-tree token) -/
+def isRuleWord : RTok → Bool
+  | .any => true
+  | .cntAll _ _ => true
+  | .cnt _ _ _ => true
+  | .sub _ _ => true
+  | _ => false
+
+theorem sem_not_allow (Sy : Syms) (t : RTok) (h : isRuleWord t = true) : ∀ S, sem Sy t ≠ some (.allow S) := by
+  intro S
+  cases t with
+  | any => simp [sem]
+  | cntAll most ds => simp only [sem]; cases parseNat ds <;> cases most <;> simp
+  | cnt most ns ds => simp only [sem]; cases resolveNames Sy ns.eraseDups <;> cases parseNat ds <;> cases most <;> simp
+  | sub force ns => simp only [sem]; cases resolveNames Sy ns.eraseDups <;> cases force <;> simp
+  | set _ => simp [isRuleWord] at h
+  | func _ _ => simp [isRuleWord] at h
+
+theorem parse_render_word (Sy : Syms) (t : RTok) (hok : renderOK Sy t = true) (hw : isRuleWord t = true) :
+    parse Sy (render t) = sem Sy t := by
+  have hf : isFunc t = false := by cases t <;> simp [isRuleWord, isFunc] at hw ⊢
+  have sh := shape Sy t hok
+  obtain ⟨k, hk⟩ := sh.close
+  obtain ⟨_, _, c, r, hr, hc, r', hr'⟩ := sh.atomSp hf
+  have hc2 : c ≠ ')' := by
+    cases t <;> simp [isRuleWord] at hw <;> simp [render] at hr <;> (rw [← hr.1]; decide)
+  have hne := renderT_ne_nil Sy t hok
+  have hstrip : stripChars isParen (removeChar '\n' (render t)) = renderT t := by
+    rw [removeChar_id _ _ sh.nonl, hk]
+    have := stripChars_mid isParen [] (renderT t) (List.replicate k ')') (by simp)
+      (fun x hx => by rw [List.mem_replicate] at hx; rw [hx.2]; decide) hne
+      (fun x hx => by rw [hr'] at hx; simp at hx; subst hx; simp [isParen, hc, hc2])
+      (fun x hx => by
+        obtain ⟨d, hd, hn⟩ := sh.lastT
+        rw [hd] at hx; simp at hx; subst hx; simp [isParen, hn.1, hn.2])
+    simpa using this
+  unfold parse
+  rw [parseSpec]
+  simp only [isParen_eq, hstrip]
+  rw [parseWords_eq, List.drop_zero, parseRest]
+  simp only [hne, if_false, (pnw_tok Sy t hok).2, (tokOf_atom Sy _ t hok hf).2]
+  rw [List.drop_of_length_le (by omega)]
+  rw [show (renderT t).length = (renderT t).length - 1 + 1 by
+    cases hh : renderT t with
+    | nil => exact absurd hh hne
+    | cons _ _ => simp, parseRest_nil]
+  have hna := sem_not_allow Sy t hw
+  cases hs : sem Sy t with
+  | none => rfl
+  | some tok =>
+    simp only
+    cases tok with
+    | allow S => exact absurd hs (hna S)
+    | _ => rfl
+
 end PS.C05
